@@ -157,6 +157,28 @@ def delay_records(maxrt):
                         except Exception as e:  # noqa
                             rec["raised"] = type(e).__name__
                         out.append(rec)
+    # the planners hand every task a shallow copy of one model: a copy (with
+    # its own probability / seed) must behave like a freshly built model
+    import copy
+    for dist in ("normal", "poisson", "uniform"):
+        for deg in ("LOW", "HIGH"):
+            base = D(1.0, dist, D.DelayDegree[deg], 20)
+            for rt in range(0, maxrt + 1):
+                base.generate_delay(rt)
+            for prob, seed in ((0.0, 20), (1.0, 7), (0.3, 20), (1.0, 20)):
+                c = copy.copy(base)
+                c.prob, c.seed = prob, seed
+                for rt in range(0, maxrt + 1, 2):
+                    rec = {"prob1000": int(prob * 1000), "dist": dist, "degree": deg, "seed": seed,
+                           "runtime": rt, "result": -1, "again": -2, "raised": ""}
+                    try:
+                        rec["result"] = _as_int(c.generate_delay(rt), "delay")
+                        rec["again"] = _as_int(D(prob, dist, D.DelayDegree[deg], seed).generate_delay(rt), "delay")
+                    except ValueError:
+                        raise
+                    except Exception as e:  # noqa
+                        rec["raised"] = type(e).__name__
+                    out.append(rec)
     return out
 
 
